@@ -108,9 +108,26 @@ func TestC14(t *testing.T) {
 		cfg := GenDistrCfg(t, c04Opts())
 		faultBlocks := rapid.IntRange(1, 5).Draw(t, "faultBlocks")
 		acyclic, realNodes := flowGraphAcyclic(cfg)
+		// the fault-free suffix must be long enough for coins to travel the longest chain through real accounts:
+		// every hop ends at an account that some sub-distributor sweeps, so the number of swept real accounts
+		// bounds it (the destinations nobody sweeps are leaves, however many of them a wide configuration has)
+		sweptReal := map[string]bool{}
+		for _, sd := range cfg.Subs {
+			for _, s := range sd.Sources {
+				if s.Type == tModule || s.Type == tBase {
+					sweptReal[distrAddrOf(s)] = true
+				}
+			}
+		}
 		suffix := len(cfg.Subs) + 3
-		if realNodes+2 > suffix {
+		if n := len(sweptReal) + 3; n > suffix {
+			suffix = n
+		}
+		if realNodes+2 < suffix {
 			suffix = realNodes + 2
+			if suffix < len(cfg.Subs)+3 {
+				suffix = len(cfg.Subs) + 3
+			}
 		}
 		blocks := faultBlocks + suffix
 		inflows := genInflows(t, cfg, faultBlocks, 30)
